@@ -390,3 +390,79 @@ func treeSize(t interface{}) int {
 	}
 	return 1
 }
+
+// ---- replayable encoding of data trees (scalars tagged so JSON keeps their kind) ---------
+
+func encTree(t interface{}) interface{} {
+	switch x := t.(type) {
+	case nil:
+		return nil
+	case bool:
+		return fmt.Sprintf("b:%v", x)
+	case int64:
+		return fmt.Sprintf("i:%d", x)
+	case uint64:
+		return fmt.Sprintf("u:%d", x)
+	case float64:
+		return fmt.Sprintf("f:%016x", math.Float64bits(x))
+	case string:
+		return "s:" + x
+	case []interface{}:
+		l := make([]interface{}, len(x))
+		for i, e := range x {
+			l[i] = encTree(e)
+		}
+		return l
+	case map[string]interface{}:
+		m := map[string]interface{}{}
+		for k, e := range x {
+			m[k] = encTree(e)
+		}
+		return m
+	}
+	return fmt.Sprintf("s:<%T>", t)
+}
+
+func decTree(t interface{}) interface{} {
+	switch x := t.(type) {
+	case nil:
+		return nil
+	case string:
+		if len(x) < 2 {
+			return x
+		}
+		body := x[2:]
+		switch x[:2] {
+		case "b:":
+			return body == "true"
+		case "i:":
+			var i int64
+			fmt.Sscan(body, &i)
+			return i
+		case "u:":
+			var u uint64
+			fmt.Sscan(body, &u)
+			return u
+		case "f:":
+			var u uint64
+			fmt.Sscanf(body, "%x", &u)
+			return math.Float64frombits(u)
+		case "s:":
+			return body
+		}
+		return x
+	case []interface{}:
+		l := make([]interface{}, len(x))
+		for i, e := range x {
+			l[i] = decTree(e)
+		}
+		return l
+	case map[string]interface{}:
+		m := map[string]interface{}{}
+		for k, e := range x {
+			m[k] = decTree(e)
+		}
+		return m
+	}
+	return t
+}
